@@ -931,7 +931,7 @@ def run(prop, tier, seed):
             _, b2, m2 = l2_family(run_, exe, scns, judge_c18, cls=lambda s, r: "backup opts " + ",".join(sorted(k for k in s["opts"] if k in ("b", "B", "z", "posix", "bim", "N"))))
             bad += b2; mism += m2
         import wide
-        wb, wm = wide.wide_family(run_, exe, rng, 150 if q else 3000, prop=prop)
+        wb, wm = wide.wide_family(run_, exe, rng, 300 if q else 4000, prop=prop)
         bad += wb; mism += wm
     except CheckError as e:
         run_.violation("no-input", "build failed: %s" % e, dict(broken="build", detail=str(e)))
